@@ -19,6 +19,7 @@ import (
 	"go/token"
 	"os"
 	"path/filepath"
+	"regexp"
 	"sort"
 	"strings"
 )
@@ -47,6 +48,54 @@ func recvName(fd *ast.FuncDecl) string {
 		return "_"
 	}
 	return fd.Recv.List[0].Names[0].Name
+}
+
+// canon makes the rendered statements independent of the names a function gives to its
+// receiver, its first parameter and its locals: receiver -> chain, parameter -> group, a local
+// introduced by `x := e` (or `x, y := e`) -> ‹e› (‹e›#i). Renaming a local is a harmless edit.
+func canon(fd *ast.FuncDecl, lines []string) []string {
+	type sub struct{ from, to string }
+	var subs []sub
+	ast.Inspect(fd.Body, func(n ast.Node) bool {
+		as, ok := n.(*ast.AssignStmt)
+		if !ok || as.Tok != token.DEFINE || len(as.Rhs) != 1 {
+			return true
+		}
+		for i, l := range as.Lhs {
+			id, ok := l.(*ast.Ident)
+			if !ok || id.Name == "_" {
+				continue
+			}
+			to := "‹" + src(as.Rhs[0]) + "›"
+			if len(as.Lhs) > 1 {
+				to += fmt.Sprintf("#%d", i)
+			}
+			subs = append(subs, sub{id.Name, to})
+		}
+		return true
+	})
+	if fd.Recv != nil && len(fd.Recv.List) == 1 && len(fd.Recv.List[0].Names) == 1 {
+		subs = append(subs, sub{fd.Recv.List[0].Names[0].Name, "chain"})
+	}
+	if fd.Type.Params != nil && len(fd.Type.Params.List) >= 1 && len(fd.Type.Params.List[0].Names) >= 1 {
+		subs = append(subs, sub{fd.Type.Params.List[0].Names[0].Name, "group"})
+	}
+	// receiver/parameter names inside the local definitions are canonicalised too (apply twice)
+	apply := func(x string) string {
+		for _, sb := range subs {
+			if sb.from == sb.to {
+				continue
+			}
+			re := regexp.MustCompile(`(^|[^.\w‹])` + regexp.QuoteMeta(sb.from) + `\b`)
+			x = re.ReplaceAllString(x, "${1}"+strings.ReplaceAll(sb.to, "$", "$$"))
+		}
+		return x
+	}
+	out := make([]string, len(lines))
+	for i, l := range lines {
+		out[i] = apply(l)
+	}
+	return out
 }
 
 // effects lists, in source order, the statements of fd that touch the chain's persistent or mirrored state.
@@ -195,15 +244,15 @@ func main() {
 			isGC := recvName(fd) != ""
 			scoped := isGC || name == "initGroupChain" // start-up builds the chain in a local named chain
 			if isGC && name == "save" {
-				saveEff, saveMem = split(effects(fd))
+				saveEff, saveMem = split(canon(fd, effects(fd)))
 				found["save"] = true
 			}
 			if isGC && name == "remove" {
-				removeEff, removeMem = split(effects(fd))
+				removeEff, removeMem = split(canon(fd, effects(fd)))
 				found["remove"] = true
 			}
 			if isGC && name == "AddGroup" {
-				addGuards = guards(fd)
+				addGuards = canon(fd, guards(fd))
 				found["AddGroup"] = true
 			}
 			qual := name
@@ -211,7 +260,7 @@ func main() {
 				qual = src(fd.Recv.List[0].Type) + "." + name
 			}
 			// writers of the chain's state anywhere in the package
-			for _, e := range effects(fd) {
+			for _, e := range canon(fd, effects(fd)) {
 				kind := strings.Fields(e)[0]
 				if kind == "Put" || kind == "Delete" || kind == "NewBatch" ||
 					strings.Contains(e, ".count") || strings.Contains(e, ".lastGroup") {
